@@ -12,6 +12,7 @@ fn adapter(name: &str, variant: &str) -> Option<Box<dyn Adapter>> {
     Some(match name {
         "bulkhead" => Box::new(adapters::bulkhead::BulkheadAd::new()),
         "ratelimiter" => Box::new(adapters::ratelimiter::RateLimiterAd::new()),
+        "adaptive" => Box::new(adapters::adaptive::AdaptiveAd::new()),
         "circuitbreaker" => Box::new(adapters::circuitbreaker::CbAd::new(variant)),
         _ => return None,
     })
